@@ -73,7 +73,7 @@ def Rodas(dae: nDAE,
 
     rparam = Rodas_param(opt.scheme)
     vsize = y0.shape[0]
-    tspan = np.array(tspan)
+    tspan = np.array(tspan, dtype=float)  # hmin = 16 * spacing(t0) is meant in double precision
     tend = tspan[-1]
     t0 = tspan[0]
     if t0 > tend:
